@@ -441,6 +441,32 @@ def with_tsf(f, fn):
         dadi.Integration.timescale_factor = old
 
 
+# Refinement clauses (two runs of the same model whose time steps differ: a mid-program reorder changes the order of the
+# operator-splitting sweeps; the frozen branch of an ancient sample has size 1 in any units and the step depends on it).
+# Level 1 = dadi.Integration.timescale_factor (1e-3), level 2 = 1/REFINE_STEP of it.  Demanded by the trace spec:
+#     d1 <= REFINE_CAP   and   d2 <= REFINE_RATIO * d1 + REFINE_FLOOR        (d = max|x - y| / max|y|)
+# Calibration: see the comment below the constants.
+REFINE_STEP = 16
+REFINE_RATIO = '1/4'
+REFINE_FLOOR = '1/1000000000'
+REFINE_CAP = '1/100'
+
+
+def refine_record(rid, site, law, sh, case, x1, y1, fx, fy):
+    """x1, y1: the two spectra at the default time step; fx(), fy() recompute them (called at the finer step)."""
+    import dadi
+    f1 = dadi.Integration.timescale_factor
+    f2 = f1 / REFINE_STEP
+    try:
+        x2 = with_tsf(f2, fx)
+        y2 = with_tsf(f2, fy)
+        out = {'x1': flat(x1), 'y1': flat(y1), 'x2': flat(x2), 'y2': flat(y2)}
+    except Exception as ex:
+        out = {'raised': '%s:%s' % (type(ex).__name__, str(ex)[:80])}
+    return {'id': rid, 'op': 'refine', 'site': site, 'case': _cs(case),
+            'in': {'law': law, 'sh': sh, 'ratio': REFINE_RATIO, 'floor': REFINE_FLOOR, 'cap': REFINE_CAP, 'f1': rat(f1), 'f2': rat(f2)}, 'out': out}
+
+
 def needs_refinement(prog):
     """A reorder followed by an integration of >= 2 populations changes the order in which the axes are swept
     (the demes front end integrates in graph order and permutes at the end): same model, different splitting error."""
@@ -501,17 +527,8 @@ def prog_case_records(case, rng):
         recs.append(_import_record(cid + '-import', _site('Demes.SFS', P), gd, leaves, None, Ne, events, orders, err, case))
     sh = [n + 1 for n in ns]
     if needs_refinement(prog) and not err:
-        f1 = dadi.Integration.timescale_factor
-        f2 = f1 / 4
-        try:
-            x2 = with_tsf(f2, lambda: run_from_demes(gd, leaves, ns, pts, Ne=Ne, log=False)[0])
-            y2 = with_tsf(f2, lambda: run_native(prog, pts, ns))
-            out = {'x1': flat(fs_re), 'y1': flat(fs_nat), 'x2': flat(x2), 'y2': flat(y2)}
-        except Exception as ex:
-            out = {'raised': '%s:%s' % (type(ex).__name__, str(ex)[:80])}
-        recs.append({'id': cid + '-roundtrip', 'op': 'refine', 'site': site, 'case': _cs(case),
-                     'in': {'law': 'RoundTripRefines', 'sh': sh, 'ratio': '1/2', 'floor': '1/1000000000', 'cap': '1/100',
-                            'f1': rat(f1), 'f2': rat(f2)}, 'out': out})
+        recs.append(refine_record(cid + '-roundtrip', site, 'RoundTripRefines', sh, case, fs_re, fs_nat,
+                                  lambda: run_from_demes(gd, leaves, ns, pts, Ne=Ne, log=False)[0], lambda: run_native(prog, pts, ns)))
     else:
         recs.append(_same(cid + '-roundtrip', site, 'RoundTrip', fs_re, fs_nat, sh, case, err=err))
     if nu0 != 1.0:
@@ -592,15 +609,8 @@ def ancient_records(case, rng):
     except Exception as ex:
         fs_want, err = None, err or 'native:%s:%s' % (type(ex).__name__, str(ex)[:60])
     if needs_refinement(prog) and not err:
-        f1 = dadi.Integration.timescale_factor
-        try:
-            x2 = with_tsf(f1 / 4, lambda: run_from_demes(gd, leaves, ns, pts, stimes=stimes, Ne=Ne, log=False)[0])
-            y2 = with_tsf(f1 / 4, lambda: run_native(want, pts, ns))
-            out = {'x1': flat(fs), 'y1': flat(fs_want), 'x2': flat(x2), 'y2': flat(y2)}
-        except Exception as ex:
-            out = {'raised': '%s:%s' % (type(ex).__name__, str(ex)[:80])}
-        recs.append({'id': cid + '-frozen', 'op': 'refine', 'site': site, 'case': _cs(case),
-                     'in': {'law': 'AncientEqualsFrozenBranchRefines', 'sh': sh, 'ratio': '1/2', 'floor': '1/1000000000', 'cap': '1/100'}, 'out': out})
+        recs.append(refine_record(cid + '-frozen', site, 'AncientEqualsFrozenBranchRefines', sh, case, fs, fs_want,
+                                  lambda: run_from_demes(gd, leaves, ns, pts, stimes=stimes, Ne=Ne, log=False)[0], lambda: run_native(want, pts, ns)))
     else:
         recs.append(_same(cid + '-frozen', site, 'AncientEqualsFrozenBranch', fs, fs_want, sh, case, err=err))
     return recs
@@ -801,19 +811,15 @@ def graph_case_records(case, rng):
     elif case.get('scale_refine'):
         # the frozen branch of an ancient sample has size 1 in any units, and the time step depends on it:
         # the step boundaries differ, so the two spectra are compared as a refinement
-        import dadi
         c = rng.choice([2.0, 0.5])
         sargs = dict(stimes=[t * c for t in stimes], Ne=None if Ne is None else Ne * c, log=False)
-        f1 = dadi.Integration.timescale_factor
-        try:
-            x1 = run_from_demes(scale_graph(gd, c), sampled, ns, pts, **sargs)[0]
-            x2 = with_tsf(f1 / 4, lambda: run_from_demes(scale_graph(gd, c), sampled, ns, pts, **sargs)[0])
-            y2 = with_tsf(f1 / 4, lambda: run_from_demes(gd, sampled, ns, pts, stimes=stimes, Ne=Ne, log=False)[0])
-            out = {'x1': flat(x1), 'y1': flat(fs), 'x2': flat(x2), 'y2': flat(y2)}
-        except Exception as ex:
-            out = {'raised': '%s:%s' % (type(ex).__name__, str(ex)[:80])}
-        recs.append({'id': cid + '-scale', 'op': 'refine', 'site': site, 'case': _cs(case),
-                     'in': {'law': 'ScaleInvarianceRefines', 'sh': sh, 'ratio': '1/2', 'floor': '1/1000000000', 'cap': '1/100'}, 'out': out})
+        x1, _, _, e = run_from_demes(scale_graph(gd, c), sampled, ns, pts, **sargs)
+        if e:
+            recs.append(_same(cid + '-scale', site, 'ScaleInvarianceRefines', None, fs, sh, case, err=e))
+        else:
+            recs.append(refine_record(cid + '-scale', site, 'ScaleInvarianceRefines', sh, case, x1, fs,
+                                      lambda: run_from_demes(scale_graph(gd, c), sampled, ns, pts, **sargs)[0],
+                                      lambda: run_from_demes(gd, sampled, ns, pts, stimes=stimes, Ne=Ne, log=False)[0]))
     if len(sampled) >= 2:
         pi = list(range(1, len(sampled) + 1))
         while pi == sorted(pi):
